@@ -63,8 +63,8 @@ func runC12_1(c *core.Ctx) {
 		c.Violate(f.Name, "class index", f.Decl.Pos(), "Get no longer computes its class as index(uint32(size)) of its size parameter")
 		return
 	}
-	isClassCap := func(e ast.Expr) bool { // 1 << idx
-		be, ok := ast.Unparen(e).(*ast.BinaryExpr)
+	isClassCap := func(e ast.Expr) bool { // 1 << idx, possibly through a local that names it
+		be, ok := seeThrough(f, e).(*ast.BinaryExpr)
 		if !ok || be.Op != token.SHL {
 			return false
 		}
